@@ -97,8 +97,10 @@ Definition emit_instruction (m : mnemonic) (f : form) (v : Z) (cur : option Z) :
       let offset := if in_i64 offset0 then offset0 else usize_as_i64 (offset0 mod two64) in
       if (branch_lo <=? offset) && (offset <=? branch_hi) then
         inl (if offset <? 0 then offset + branch_fix else offset)
-      else if target_pc =? branch_escape_target then inl 0
-      else inr TooFar
+      else match branch_escape with
+           | Some t => if target_pc =? t then inl 0 else inr TooFar   (* older trees: a target of 0 was never rejected *)
+           | None => inr TooFar
+           end
     else inl value in
   match value' with
   | inr TooFar => (branch_too_far_bytes, Some TooFar)   (* the two bytes are still occupied, the error is raised *)
